@@ -7,7 +7,7 @@ TRUST = [
 ]
 
 
-def K(test, quick=400, thorough=4000, shards=12, level="exploration", pkg="world", qtimeout=300, ttimeout=1500, qenv=None, tenv=None, assumptions=None, qshards=1):
+def K(test, quick=400, thorough=4000, shards=12, level="exploration", pkg="world", qtimeout=300, ttimeout=3000, qenv=None, tenv=None, assumptions=None, qshards=1):
     return {
         "pkg": pkg, "test": test, "level": level,
         "quick": {"checks": quick, "shards": qshards, "timeout": qtimeout, "shrinktime": "10s", "env": qenv or {}},
@@ -17,24 +17,24 @@ def K(test, quick=400, thorough=4000, shards=12, level="exploration", pkg="world
 
 
 CHECKS = {
-    "C01": K("TestC01", quick=600, thorough=5000),
-    "C02": K("TestC02", quick=600, thorough=5000),
-    "C03": K("TestC03(K|D)", quick=500, thorough=4000, qenv={"VERIF_D_FACTOR": 20}, tenv={"VERIF_D_FACTOR": 50}),
-    "C04": K("TestC04(K|D)", quick=500, thorough=4000, qenv={"VERIF_D_FACTOR": 20}, tenv={"VERIF_D_FACTOR": 50}),
-    "C05": K("TestC05", quick=600, thorough=5000),
-    "C06": K("TestC06", quick=600, thorough=5000),
-    "C07": K("TestC07(K|A)", quick=250, thorough=1500, level="fault_enumeration"),
-    "C08": K("TestC08", quick=600, thorough=5000),
-    "C09": K("TestC09(K|D)", quick=400, thorough=3000, qenv={"VERIF_D_FACTOR": 3}, tenv={"VERIF_D_FACTOR": 5}),
-    "C10": K("TestC10(K|A)", quick=200, thorough=1500, pkg="cli"),
-    "C11": K("TestC11", quick=600, thorough=5000),
-    "C12": K("TestC12", quick=600, thorough=5000),
-    "C13": K("TestC13", quick=600, thorough=5000),
-    "C14": K("TestC14(A|Hooks)", quick=80, thorough=500),
-    "C15": K("TestC15", quick=400, thorough=3000),
-    "C16": K("TestC16", quick=300, thorough=2000),
-    "C17": K("TestC17", quick=1500, thorough=12000, level="fault_enumeration"),
-    "C18": K("TestC18(K|A)", quick=250, thorough=1500),
-    "C19": K("TestC19", quick=300, thorough=2500),
-    "C20": K("TestC20(Binary)?", quick=150, thorough=1500, pkg="cli"),
+    "C01": K("TestC01", quick=600, thorough=20000),
+    "C02": K("TestC02", quick=600, thorough=20000),
+    "C03": K("TestC03(K|D)", quick=500, thorough=10000, qenv={"VERIF_D_FACTOR": 20}, tenv={"VERIF_D_FACTOR": 50}),
+    "C04": K("TestC04(K|D)", quick=500, thorough=10000, qenv={"VERIF_D_FACTOR": 20}, tenv={"VERIF_D_FACTOR": 50}),
+    "C05": K("TestC05", quick=600, thorough=20000),
+    "C06": K("TestC06", quick=600, thorough=20000),
+    "C07": K("TestC07(K|A)", quick=250, thorough=4000, level="fault_enumeration"),
+    "C08": K("TestC08", quick=600, thorough=20000),
+    "C09": K("TestC09(K|D)", quick=400, thorough=10000, qenv={"VERIF_D_FACTOR": 3}, tenv={"VERIF_D_FACTOR": 5}),
+    "C10": K("TestC10(K|A)", quick=200, thorough=4000, pkg="cli"),
+    "C11": K("TestC11", quick=600, thorough=20000),
+    "C12": K("TestC12", quick=600, thorough=20000),
+    "C13": K("TestC13", quick=600, thorough=20000),
+    "C14": K("TestC14(A|Hooks)", quick=80, thorough=1200),
+    "C15": K("TestC15", quick=400, thorough=8000),
+    "C16": K("TestC16", quick=300, thorough=6000),
+    "C17": K("TestC17", quick=1500, thorough=40000, level="fault_enumeration"),
+    "C18": K("TestC18(K|A)", quick=250, thorough=4000),
+    "C19": K("TestC19", quick=300, thorough=8000),
+    "C20": K("TestC20(Binary)?", quick=150, thorough=3000, pkg="cli"),
 }
